@@ -91,6 +91,7 @@ var propertyConfigs = map[string]*propertyConfig{
 			"Lemmas over those contracts, also Lean theorems checked on every run: the product of two elements is the element of the sum of the exponents (galois_compose), the exponent of 5 only matters modulo 2^n = NthRoot/4, the slot count (five_pow_two_pow, galois_periodic), and g^(NthRoot-1) is the inverse of every power g of 5 (galois_inverse).  " +
 			"The discrete logarithm: ring.ModExpPow2 (wrapping square-and-multiply, masked at the end) returns x^e mod p for every power of two p <= 2^63; rlwe.Parameters.SolveDiscreteLogGaloisElement returns kk for EVERY element g = 5^kk (mod NthRoot), kk in [0, NthRoot/4), NthRoot = 2^n, 4 <= n <= 62 " +
 			"(loop invariant kuint = (kk mod (E/x))*x with E = NthRoot/8 and x | E; one iteration is the Lean theorem dlog_step_cases, which rests on 5^(2^m) = 1 + 2^(m+2)*odd; the mask and the `|=` are the Lean theorems and_mask_dvd / or_add_pow2); that this kk is the only logarithm in range is the Lean theorem dlog_unique.  " +
+			"Advertised key lists, one of them: rlwe.GaloisElementsForTrace(params, logN) returns exactly 5^(2^i) mod NthRoot for logN <= i < LogN-1, in that order, followed for logN = 0 in the standard ring by NthRoot-1, and nothing else; it does not panic for any constructed parameter object (finding F25: it did, for the conjugate-invariant ring).  " +
 			"Last sentence of the property, one link: rlwe.Evaluator.CheckAndGetGaloisKey (abstract contract, go/ssa) leaves, on success, an index map in the evaluator the caller holds, so the automorphism that follows does not fail when the key is present.",
 		Assumptions: []string{
 			"GenBRedConstant (big-number division) is ASSUMED to return floor(2^128/q); BRed itself is proved (C01)",
